@@ -98,6 +98,8 @@ def shape_lean(s):
         return "(" + " × ".join(shape_lean(x) for x in s[1:]) + ")"
     if s[0] == "L":
         return "(List " + shape_lean(s[1]) + ")"
+    if s[0] == "F":     # an opaque function of the value arguments (record arguments are part of its identity)
+        return "(" + " → ".join([shape_lean(x) for x in s[1]] + ["M " + shape_lean(s[2])]) + ")"
     raise AssertionError(s)
 
 
@@ -291,6 +293,12 @@ class Module:
             k = node.value.id + "." + node.attr
             if k in self.consts:
                 return self.consts[k]
+            if node.value.id in self.imports:
+                # class constant of a class imported from another translated module (`ArchitectureFeatures.MAX_BLOCKDEP`)
+                modname, orig = self.imports[node.value.id]
+                other = self.registry.get(modname)
+                if other is not None and other is not self and (orig + "." + node.attr) in getattr(other, "consts", {}):
+                    return other.consts[orig + "." + node.attr]
             raise Untranslatable("not a constant")
         if isinstance(node, ast.Attribute) and isinstance(node.value, ast.Call) and len(node.value.args) == 1 \
                 and ast.unparse(node.value.func) in ("np.iinfo", "numpy.iinfo") and not node.value.keywords:
@@ -1483,6 +1491,9 @@ class FnTranslator:
         if len(node.ops) == 1 and isinstance(node.ops[0], (ast.Is, ast.IsNot)) \
                 and isinstance(node.comparators[0], ast.Constant) and node.comparators[0].value is None:
             lp = self.record_path(node.left, env)
+            if lp is None and isinstance(node.left, ast.Name) and env.d.get(node.left.id) is not None \
+                    and env.d[node.left.id][1][0] == "R":
+                lp = env.d[node.left.id][1][1]          # the record itself: `prev_op is None`
             if lp is not None:
                 key = lp + " is None"
                 if key not in self.record_bools:
@@ -1604,6 +1615,39 @@ class FnTranslator:
 
     def call(self, node, env, stmt=False):
         fname = ast.unparse(node.func)
+        # opaque function (declared in the plug-in): a call anywhere in the body is an application of a function-valued
+        # parameter to the *value* arguments; record arguments (immutable by the entry assumption) name the parameter
+        if fname in self.cfg.get("opaque_fns", {}) and fname not in env.d and not node.keywords \
+                and not any(isinstance(a, ast.Starred) for a in node.args):
+            ret = self.cfg["opaque_fns"][fname]
+            recs, pre, vals = [], [], []
+            for a in node.args:
+                rp = None
+                if isinstance(a, ast.Name) and env.d.get(a.id) is not None and env.d[a.id][1][0] == "R":
+                    rp = env.d[a.id][1][1]
+                else:
+                    rp = self.record_path(a, env)
+                if rp is not None:
+                    recs.append(rp)
+                    continue
+                p_, v_ = self.expr(a, env)
+                pre += p_
+                vals.append(v_)
+            key = fname + "(" + ", ".join(recs) + ")"
+            sh = ("F", tuple(v_[2] for v_ in vals), ret)
+            if not hasattr(self, "opaque_fn_params"):
+                self.opaque_fn_params = {}
+            if key in self.opaque_fn_params:
+                ln, sh0 = self.opaque_fn_params[key]
+                if sh0 != sh:
+                    self.fail(node, f"opaque function `{key}` called with value arguments of different shapes")
+            else:
+                root = self
+                ln = self.param_name((fname + "__" + "__".join(recs)).replace(".", "_").replace("()", "").rstrip("_"))
+                self.opaque_fn_params[key] = (ln, sh)
+                self.opaque_params.append((ln, sh, f"the function `{key}` of the value arguments"))
+            r = self.tmp()
+            return pre + [("let", r, " ".join([ln] + [v_[1] for v_ in vals]), None)], ("atom", r, ret)
         # `l.copy()` of a list value: lists are values here (no aliasing is modelled: every store rebinds the name)
         if isinstance(node.func, ast.Attribute) and node.func.attr == "copy" and not node.args and not node.keywords:
             try:
